@@ -47,7 +47,7 @@ func runC05(p *Program, e *Engine, r *Result, tier string) {
 		return
 	}
 	c05R1(a, "C05.R1")
-	c05R2(a)
+	c05R2(a, "C05.R2", a.roots())
 	c05R3(a)
 	c05R4(a, "C05.R4")
 }
@@ -140,7 +140,7 @@ func chanShape(c *Ctx, ch ssa.Value) string {
 }
 
 // R2: blocking channel operations are interruptible by Close.
-func c05R2(a *An) {
+func c05R2(a *An, rule string, roots []*ssa.Function) {
 	ro := a.Ro
 	// channels closed by the reader's deferred function on every exit ("reader exit channels")
 	exitChans := map[*types.Var]bool{}
@@ -158,7 +158,7 @@ func c05R2(a *An) {
 		}
 	}
 	seen := map[string]bool{}
-	for _, root := range a.roots() {
+	for _, root := range roots {
 		w := a.walk(root)
 		for _, v := range w.Visits {
 			fn := shortFn(v.Instr.Parent())
@@ -178,7 +178,7 @@ func c05R2(a *An) {
 						hasDone = true
 					}
 				}
-				a.R.ob("C05.R2", key, "a blocking select must have a receive on the done channel so that Close releases it", a.P.instrPos(x), hasDone,
+				a.R.ob(rule, key, "a blocking select must have a receive on the done channel so that Close releases it", a.P.instrPos(x), hasDone,
 					sprintf("states: %s", blockShape(v)))
 			case *ssa.Send:
 				key := fn + ":" + blockShape(v)
@@ -186,7 +186,7 @@ func c05R2(a *An) {
 					continue
 				}
 				seen[key] = true
-				a.R.ob("C05.R2", key, "a bare channel send blocks until a consumer arrives and cannot be released by Close", a.P.instrPos(x), false, "send outside a select with done")
+				a.R.ob(rule, key, "a bare channel send blocks until a consumer arrives and cannot be released by Close", a.P.instrPos(x), false, "send outside a select with done")
 			case *ssa.UnOp:
 				if _, blocking := blockingOp(v.Ctx, x); !blocking {
 					continue
@@ -198,7 +198,7 @@ func c05R2(a *An) {
 				seen[key] = true
 				f := v.Ctx.fieldOfValue(x.X)
 				if f == nil || !exitChans[f] {
-					a.R.ob("C05.R2", key, "a bare channel receive must wait for the reader-exit channel only", a.P.instrPos(x), false,
+					a.R.ob(rule, key, "a bare channel receive must wait for the reader-exit channel only", a.P.instrPos(x), false,
 						sprintf("receives from %s, which the reader does not close on exit", v.Ctx.path(x.X)))
 					continue
 				}
@@ -228,7 +228,7 @@ func c05R2(a *An) {
 						how = append(how, "reader woken by "+fullName(cal)+"("+stripIDs(u.Ctx.path(callCommon(u.Instr).Args[0]))+")")
 					}
 				}
-				a.R.ob("C05.R2", key, "the wait for the reader in Close must come after close(done) and after closing the notification file on every path",
+				a.R.ob(rule, key, "the wait for the reader in Close must come after close(done) and after closing the notification file on every path",
 					a.P.instrPos(x), closedDone && woke, sprintf("dominating calls: %s", fmtList(how)))
 			}
 		}
